@@ -106,13 +106,13 @@ def pair_jobs(prop, tier, dims=(1, 2, 3, 4)):
     return jobs
 
 
-def reext_jobs(tier):
+def reext_jobs(tier, prop="C06", dims=(1, 2, 3, 4)):
     """C06: complete (old,new) extents grid per dimensionality (reextmc)"""
     jobs = []
-    for d in (1, 2, 3, 4):
+    for d in dims:
         n = 1 if tier == "quick" or d < 4 else 4
         for sh in range(n):
-            jobs.append(Job("reextmc", cfg="san", defs=["-DRX_D=%d" % d], args=["--tier=" + tier, "--shard=%d" % sh, "--nshards=%d" % n]))
+            jobs.append(Job("reextmc", cfg="san", defs=["-DRX_D=%d" % d], args=["--tier=" + tier, "--prop=" + prop, "--shard=%d" % sh, "--nshards=%d" % n]))
     return jobs
 
 
@@ -156,7 +156,7 @@ CHECKS["C08"] = dict(
     title="construct once / destroy once / storage returned", level="model_checking", engine="E2",
     claim=("The live-object registry (construct-over-live, use/assign/destroy of a dead object), the allocation ledger (unknown/double/size-mismatched deallocate, outstanding blocks/elements when the pool dies) "
            "and the 0xA5 pre-fill oracle (sizing constructors and reextent must not write trivially-default-constructible elements) are evaluated on every transition of the E2 search over the full alphabet."),
-    jobs=lambda tier: hist_jobs("C08", tier) + recycle_jobs("C08", tier) + alloc_jobs("C08", tier, combos=[(0, 1, 0, 0), (1, 0, 1, 0), (1, 1, 1, 1)]) + serial_hist_jobs("C08", tier), rule=HIST_RULE + RECYCLE_RULE + " The ledger keeps separate books per allocator instance: the search is repeated with a stateful allocator (three propagation-trait configurations, equal and unequal instances) so that a block released through the wrong instance is visible. Reported for C08: registry/ledger/leak oracles on any transition; for int elements the model holds the allocator's pre-fill pattern for never-written elements.", assumptions=HIST_ASSUME,
+    jobs=lambda tier: hist_jobs("C08", tier) + recycle_jobs("C08", tier) + reext_jobs(tier, "C08", dims=(1, 2) if tier == "quick" else (1, 2, 3)) + pair_jobs("C08", tier, dims=(2,) if tier == "quick" else (1, 2, 3)) + alloc_jobs("C08", tier, combos=[(0, 1, 0, 0), (1, 0, 1, 0), (1, 1, 1, 1)]) + serial_hist_jobs("C08", tier), rule=HIST_RULE + RECYCLE_RULE + " The ledger keeps separate books per allocator instance: the search is repeated with a stateful allocator (three propagation-trait configurations, equal and unequal instances) so that a block released through the wrong instance is visible. Reported for C08: registry/ledger/leak oracles on any transition; for int elements the model holds the allocator's pre-fill pattern for never-written elements.", assumptions=HIST_ASSUME,
 )
 
 
@@ -362,6 +362,9 @@ def c11_jobs(tier):
             jobs.append(Job("histmc", cfg="san", defs=["-DHM_D=%d" % d, "-DHM_ELEM=%d" % e, "-DHM_FANCY"], args=["--tier=" + tier, "--prop=all", "--depth=%d" % (3 if tier == "quick" else 4)]))
     for d in (1, 2, 3):
         jobs.append(Job("cmpmc", cfg="san", defs=["-DCMP_D=%d" % d, "-DCMP_FANCY"], args=["--tier=" + tier]))
+    # the fault enumeration of C09 over the fancy-pointer allocator (generic-allocator code paths of uninitialized_copy/fill/value-construct and their rollbacks differ from std::allocator's)
+    for d in ((1, 2) if tier == "quick" else (1, 2, 3)):
+        jobs.append(Job("histmc", cfg="san", defs=["-DHM_D=%d" % d, "-DHM_ELEM=0", "-DHM_FANCY", "-DINSTR_THROWING_MOVE"], args=["--tier=" + tier, "--prop=all", "--mode=fault", "--depth=%d" % (2 if tier == "quick" or d == 3 else 3)]))
     return jobs
 
 
@@ -374,6 +377,7 @@ CHECKS["C11"] = dict(
            "element-for-element equal observations; in addition every dereference outside the storage the array owns or was given, and every use of a null fancy pointer, is counted and must be zero. Instantiating the "
            "whole alphabet also decides the 'uses only that type's own arithmetic' clause: any reliance on raw-pointer convertibility would not compile."),
     jobs=c11_jobs,
+    equal_verdicts_with=["C09"],   # the fault enumeration over the fancy-pointer allocator must fail exactly where the raw-pointer run (C09) fails: those classes are C09's known findings
     ignore_keys=["*|ordering-between-different-element-types|does-not-compile", "*|ordering-between-different-pointer-types|does-not-compile", "D0|*owning-0D-array-operand*"],
     rule=("same state spaces, alphabets and oracles as C01/C02/C05/C04/C06/C08/C07 (see their rules) with the element pointer replaced; provenance counters reported as fancy_dereferences / violations 'fancy-pointer|...'. "
           "distinct_nontrivial as in the respective explorers."),
@@ -420,8 +424,8 @@ CHECKS["C13"] = dict(
     claim=("Complete configuration grid over the BLAS adaptor: gemm (in-place, assigned/added lazy range, new array), gemv, dot (three forms), axpy, scal, copy, swap, nrm2, asum, iamax, herk, syrk, trsm (side x fill x diag) x element "
            "types (quick: double, complex<double>; thorough: all four) x per-operand layout variants (plain, transposed storage, padded sub-block, padded sub-block of transposed storage, conjugated / hermitised of each, also as "
            "output; vectors: unit stride, stride 2, matrix column) x ALL sizes with m,k,n in {0,1,2} (thorough {0..3}) x scalars {0,1,2} (+ i, 1+2i for complex), on exactly representable integer data so the naive reference is exact "
-           "and the comparison is ==. Each configuration: output equals the reference, inputs unchanged, all guard/padding cells of every store unchanged; outcomes correct | rejected (exception or assertion in boost/multi) | violation."),
-    jobs=lambda tier: sharded("blasmc", tier, libs=["-lopenblas"]),
+           "and the comparison is ==; the whole grid is run a second time with every matrix operand view carrying non-zero index bases (reindexed(1,2)). Each configuration: output equals the reference, inputs unchanged, all guard/padding cells of every store unchanged; outcomes correct | rejected (exception or assertion in boost/multi) | violation."),
+    jobs=lambda tier: sharded("blasmc", tier, libs=["-lopenblas"]) + sharded("blasmc", tier, libs=["-lopenblas"], extra_args=["--rebase=1"]),
     rule=("flat enumeration, see notes/C13.md for the grid and counts (quick 1.6e6, thorough 4.0e6 configurations); a failed library assertion is intercepted inside the child (__assert_fail interposed) and counted as 'rejected' iff it is "
           "located under include/boost/multi; violation key = operation form | element type | layout class of each operand | size class per dimension | scalar class | coarse symptom. distinct_nontrivial = configurations with all sizes >= 1."),
     assumptions=["OpenBLAS is the environment (OPENBLAS_NUM_THREADS=1)", "forms that do not instantiate on this tree (gemm on complex<float>, iamax without NDEBUG, ...) are excluded at compile time and listed in a run note",
